@@ -349,6 +349,8 @@ class PeriodicMessageTask:
         new_data = bytearray(data)
         old_data = self.msg.data
         self.msg.data = new_data
+        # The size of the payload may have changed as well
+        self.msg.dlc = len(new_data)
         if hasattr(self._task, "modify_data"):
             self._task.modify_data(self.msg)
         elif new_data != old_data:
